@@ -107,10 +107,17 @@ def value_lengths(mtu: int) -> list[int]:
 # the model
 # ---------------------------------------------------------------------------
 class Model:
-    def __init__(self, spec):
+    def __init__(self, spec, rows=None):
         self.spec = spec
         self.rows: list[dict] = []
-        self._build()
+        if rows is None:
+            self._build()
+        else:
+            # rows described by the caller (database adopted from server objects): only the grouping
+            # and the declaration values are computed here
+            self.rows = rows
+            for i, r in enumerate(rows):
+                r['i'] = i
         self._group()
 
     # rows in registration order ------------------------------------------------
@@ -244,7 +251,7 @@ class Model:
         return width_name(r['w']) if r else 'none'
 
     def autoreg(self) -> bool:
-        return any(not s.get('reg', 1) for s in self.spec)
+        return any(not s.get('reg', 1) for s in (self.spec or []))
 
 
 # ---------------------------------------------------------------------------
